@@ -120,7 +120,9 @@ def run_apalache(module, cinit, init, inv, length, timeout=600):
         cmd = ["timeout", str(timeout), "apalache-mc", "check", "--cinit=" + cinit, "--init=" + init, "--inv=" + inv,
                "--length=%d" % length, "--out-dir=" + os.path.join(work, "out"), module + ".tla"]
         env = dict(os.environ)
+        os.makedirs(os.path.join(work, "jtmp"), exist_ok=True)
         env.pop("JAVA_TOOL_OPTIONS", None)
+        env["TMPDIR"] = os.path.join(work, "jtmp")   # the apalache-mc wrapper makes its java.io.tmpdir with mktemp -t
         p = subprocess.run(cmd, cwd=work, env=env, stdout=subprocess.PIPE, stderr=subprocess.STDOUT, text=True)
         out = p.stdout or ""
         if "The outcome is: NoError" in out and p.returncode == 0:
@@ -150,7 +152,9 @@ def run_tlc(module, cfg, env_extra=None, workers=None, timeout=600, simulate=Non
         env = dict(os.environ)
         if env_extra:
             env.update({k: str(v) for k, v in env_extra.items()})
-        jopts = "-Xss512m"
+        jtmp = os.path.join(work, "jtmp")   # SANY unpacks the standard modules into java.io.tmpdir on every run
+        os.makedirs(jtmp, exist_ok=True)
+        jopts = "-Xss512m -Djava.io.tmpdir=%s" % jtmp
         if heap:
             jopts += " -Xmx%s" % heap
         env["JAVA_TOOL_OPTIONS"] = (env.get("JAVA_TOOL_OPTIONS", "") + " " + jopts).strip()
